@@ -1,5 +1,329 @@
-//! Harness binary for property C10 (line protocol; see /verif/vlib/BUILDER_GUIDE.md).
+//! Protocol `lsphist` (C10): drives the real `samlang_services::server_state::ServerState`
+//! (crates/samlang-services/src/server_state.rs) through histories of update / rename_module /
+//! remove, and evaluates the real checker as a pure function for the model's table.
+//!
+//! Module names: `[A-Za-z0-9.]+` (dots separate parts), `@` = ModuleReference::ROOT.
+//! Lines:
+//!   def <cid> <hex>            register a content; answer `imports=<a,b|-> perr=<n>`
+//!   new <m>=<cid> ...          ServerState::new on these sources           -> observation
+//!   upd <m>=<cid> ...          ServerState::update (one batch)              -> observation
+//!   ren <old>:<new> ...        ServerState::rename_module (one batch)       -> observation
+//!   rem <m> ...                ServerState::remove (one batch)              -> observation
+//!   fresh <m>=<cid> ...        a brand-new ServerState on these sources (does not touch the
+//!                              incremental one)                             -> observation
+//!   chk <m> <cid> <k>=<m'>~<cid'>|<k>=! ...   type_check_module(m, parse(cid as m), G) with
+//!                              G[k] = build_module_signature(m', parse(cid' as m')), or the
+//!                              builtin signature for `k=!`                 -> `k:tok,...`
+//!   perr <m> <cid>             parse errors of the content parsed as module m -> `tok,...`
+//!   aff <m> ...                (hook, optional) DependencyGraph::new(current).affected_set(dirty)
+//! Observation = `<name>=<+|-><tok,tok,...|->/<fullhash>` for every module name mentioned so far in
+//! this history (sorted), `+` iff it is in all_modules(); tok = hash of (location, IDE text,
+//! reference locations) of one error; fullhash = hash of the complete `to_ide_format` rendering
+//! (with source snippets) of the module's sorted error list.  `panic:<msg>` if the call panicked.
+use samlang_checker::type_::GlobalSignature;
+use samlang_errors::{CompileTimeError, ErrorSet};
+use samlang_heap::{Heap, ModuleReference};
+use samlang_services::server_state::ServerState;
+use samverif_harness::util::*;
+use std::collections::{BTreeSet, HashMap};
+use std::panic::{AssertUnwindSafe, catch_unwind};
+
+fn fnv(s: &str) -> u64 {
+  let mut h: u64 = 0xcbf29ce484222325;
+  for b in s.as_bytes() {
+    h ^= *b as u64;
+    h = h.wrapping_mul(0x100000001b3);
+  }
+  h
+}
+
+/// Canonicalisation: the list of missing members in `MissingClassMemberDefinitions` comes out of a
+/// HashMap iteration (order differs from call to call, also between two fresh servers): every
+/// maximal run of lines starting with "- " is sorted.
+fn canon(s: &str) -> String {
+  let mut out: Vec<&str> = Vec::new();
+  let mut run: Vec<&str> = Vec::new();
+  for l in s.split('\n') {
+    if l.starts_with("- ") {
+      run.push(l);
+    } else {
+      run.sort();
+      out.append(&mut run);
+      out.push(l);
+    }
+  }
+  run.sort();
+  out.append(&mut run);
+  out.join("\n")
+}
+
+fn mod_of(heap: &mut Heap, name: &str) -> ModuleReference {
+  if name == "@" {
+    ModuleReference::ROOT
+  } else {
+    heap.alloc_module_reference_from_string_vec(name.split('.').map(|s| s.to_string()).collect())
+  }
+}
+
+fn name_of(heap: &Heap, m: &ModuleReference) -> String {
+  if *m == ModuleReference::ROOT { "@".to_string() } else { m.pretty_print(heap) }
+}
+
+/// Structural token of one error: location, IDE message, reference locations (no source snippets).
+fn struct_text(
+  e: &CompileTimeError,
+  heap: &Heap,
+  sources: &HashMap<ModuleReference, String>,
+) -> String {
+  let f = e.to_ide_format(heap, sources);
+  let refs: Vec<String> = f.reference_locs.iter().map(|l| l.pretty_print(heap)).collect();
+  format!("{}|{}|{}", f.location.pretty_print(heap), canon(&f.ide_error), refs.join(";"))
+}
+
+fn tok(s: &str) -> String {
+  format!("{:012x}", fnv(s) & 0xffff_ffff_ffff)
+}
+
+struct Sess {
+  state: Option<ServerState>,
+  names: BTreeSet<String>,
+}
+
+fn observe(st: &ServerState, names: &BTreeSet<String>, verbose: bool) -> String {
+  let mut present: HashMap<String, ModuleReference> = HashMap::new();
+  for m in st.all_modules() {
+    present.insert(name_of(&st.heap, m), *m);
+  }
+  let mut all: BTreeSet<String> = names.clone();
+  all.extend(present.keys().cloned());
+  let mut parts = Vec::new();
+  for n in &all {
+    let m = if n == "@" {
+      Some(ModuleReference::ROOT)
+    } else {
+      st.heap.get_allocated_module_reference_opt(n.split('.').map(|s| s.to_string()).collect())
+    };
+    let errs: &[CompileTimeError] = match &m {
+      Some(m) => st.get_errors(m),
+      None => &[],
+    };
+    let mut toks: Vec<String> = Vec::new();
+    let mut fulls: Vec<String> = Vec::new();
+    for e in errs {
+      let f = e.to_ide_format(&st.heap, &st.string_sources);
+      let s = struct_text(e, &st.heap, &st.string_sources);
+      fulls.push(format!("{}\n{}", s, canon(&f.full_error)));
+      toks.push(if verbose { hex(s.as_bytes()) } else { tok(&s) });
+    }
+    toks.sort();
+    toks.dedup();
+    fulls.sort();
+    fulls.dedup();
+    let flag = if present.contains_key(n) { '+' } else { '-' };
+    parts.push(format!(
+      "{}={}{}/{:012x}",
+      n,
+      flag,
+      if toks.is_empty() { "-".to_string() } else { toks.join(",") },
+      fnv(&fulls.join("\u{1}")) & 0xffff_ffff_ffff
+    ));
+  }
+  parts.join(" ")
+}
+
 fn main() {
-  eprintln!("c10: not implemented yet");
-  std::process::exit(2);
+  std::panic::set_hook(Box::new(|_| {}));
+  let verbose = std::env::args().any(|a| a == "-v");
+  let mut contents: HashMap<String, String> = HashMap::new();
+  let mut sess = Sess { state: None, names: BTreeSet::new() };
+  for_each_line(|line| {
+    let t: Vec<&str> = line.split(' ').collect();
+    let get = |cid: &str| contents.get(cid).cloned().unwrap_or_default();
+    match t[0] {
+      "def" => {
+        let text = unhex_str(t[2]);
+        let mut heap = Heap::new();
+        let m = mod_of(&mut heap, "Zz");
+        let mut es = ErrorSet::new();
+        let r = catch_unwind(AssertUnwindSafe(|| {
+          samlang_parser::parse_source_module_from_text(&text, m, &mut heap, &mut es)
+        }));
+        contents.insert(t[1].to_string(), text);
+        match r {
+          Ok(parsed) => {
+            let imps: Vec<String> =
+              parsed.imports.iter().map(|i| name_of(&heap, &i.imported_module)).collect();
+            format!(
+              "imports={} perr={}",
+              if imps.is_empty() { "-".to_string() } else { imps.join(",") },
+              es.errors().len()
+            )
+          }
+          Err(e) => format!("panic:{}", hex(panic_msg(&e).as_bytes())),
+        }
+      }
+      "new" | "fresh" => {
+        let mut heap = Heap::new();
+        let mut srcs = HashMap::new();
+        let mut names = BTreeSet::new();
+        for kv in &t[1..] {
+          let (n, cid) = kv.split_once('=').unwrap();
+          names.insert(n.to_string());
+          srcs.insert(mod_of(&mut heap, n), get(cid));
+        }
+        match catch_unwind(AssertUnwindSafe(|| ServerState::new(heap, false, srcs))) {
+          Ok(st) => {
+            if t[0] == "new" {
+              sess.names = names;
+              let o = observe(&st, &sess.names, verbose);
+              sess.state = Some(st);
+              o
+            } else {
+              let mut ns = sess.names.clone();
+              ns.extend(names);
+              catch_unwind(AssertUnwindSafe(|| observe(&st, &ns, verbose)))
+                .unwrap_or_else(|e| format!("panic:{}", hex(panic_msg(&e).as_bytes())))
+            }
+          }
+          Err(e) => format!("panic:{}", hex(panic_msg(&e).as_bytes())),
+        }
+      }
+      "upd" | "ren" | "rem" | "aff" => {
+        let Some(st) = sess.state.as_mut() else { return "no-state".to_string() };
+        let names = &mut sess.names;
+        let r = catch_unwind(AssertUnwindSafe(|| match t[0] {
+          "upd" => {
+            let mut ups = Vec::new();
+            for kv in &t[1..] {
+              let (n, cid) = kv.split_once('=').unwrap();
+              names.insert(n.to_string());
+              ups.push((mod_of(&mut st.heap, n), get(cid)));
+            }
+            st.update(ups);
+            String::new()
+          }
+          "ren" => {
+            let mut rs = Vec::new();
+            for kv in &t[1..] {
+              let (a, b) = kv.split_once(':').unwrap();
+              names.insert(a.to_string());
+              names.insert(b.to_string());
+              let ma = mod_of(&mut st.heap, a);
+              let mb = mod_of(&mut st.heap, b);
+              rs.push((ma, mb));
+            }
+            st.rename_module(rs);
+            String::new()
+          }
+          "rem" => {
+            let mut ms = Vec::new();
+            for n in &t[1..] {
+              names.insert(n.to_string());
+              ms.push(mod_of(&mut st.heap, n));
+            }
+            st.remove(&ms);
+            String::new()
+          }
+          _ => affected(st, &t[1..]),
+        }));
+        match r {
+          Ok(s) if t[0] == "aff" => s,
+          Ok(_) => catch_unwind(AssertUnwindSafe(|| observe(st, names, verbose)))
+            .unwrap_or_else(|e| format!("panic:{}", hex(panic_msg(&e).as_bytes()))),
+          Err(e) => {
+            // a panicked ServerState is not used any further
+            sess.state = None;
+            format!("panic:{}", hex(panic_msg(&e).as_bytes()))
+          }
+        }
+      }
+      "perr" => {
+        let mut heap = Heap::new();
+        let m = mod_of(&mut heap, t[1]);
+        let text = get(t[2]);
+        let mut es = ErrorSet::new();
+        let r = catch_unwind(AssertUnwindSafe(|| {
+          samlang_parser::parse_source_module_from_text(&text, m, &mut heap, &mut es);
+        }));
+        if r.is_err() {
+          return "panic".to_string();
+        }
+        let srcs = HashMap::from([(m, text)]);
+        let mut toks: Vec<String> = es
+          .errors()
+          .iter()
+          .map(|e| {
+            let s = struct_text(e, &heap, &srcs);
+            if verbose { hex(s.as_bytes()) } else { tok(&s) }
+          })
+          .collect();
+        toks.sort();
+        toks.dedup();
+        if toks.is_empty() { "-".to_string() } else { toks.join(",") }
+      }
+      "chk" => {
+        let r = catch_unwind(AssertUnwindSafe(|| {
+          let mut heap = Heap::new();
+          let m = mod_of(&mut heap, t[1]);
+          let text = get(t[2]);
+          let mut scratch = ErrorSet::new();
+          let parsed =
+            samlang_parser::parse_source_module_from_text(&text, m, &mut heap, &mut scratch);
+          let mut g: GlobalSignature = HashMap::new();
+          let mut srcs = HashMap::from([(m, text)]);
+          for kv in &t[3..] {
+            let (k, v) = kv.split_once('=').unwrap();
+            let km = mod_of(&mut heap, k);
+            if v == "!" {
+              g.insert(km, samlang_checker::type_::create_builtin_module_signature());
+              continue;
+            }
+            let (m2, c2) = v.split_once('~').unwrap();
+            let mm = mod_of(&mut heap, m2);
+            let text2 = get(c2);
+            let mut scratch2 = ErrorSet::new();
+            let p2 =
+              samlang_parser::parse_source_module_from_text(&text2, mm, &mut heap, &mut scratch2);
+            g.insert(km, samlang_checker::build_module_signature(mm, &p2));
+            srcs.entry(km).or_insert(text2);
+          }
+          let mut es = ErrorSet::new();
+          samlang_checker::type_check_module(m, &parsed, &g, &mut es);
+          let mut toks: Vec<String> = es
+            .errors()
+            .iter()
+            .map(|e| {
+              let s = struct_text(e, &heap, &srcs);
+              format!(
+                "{}:{}",
+                name_of(&heap, &e.location.module_reference),
+                if verbose { hex(s.as_bytes()) } else { tok(&s) }
+              )
+            })
+            .collect();
+          toks.sort();
+          toks.dedup();
+          if toks.is_empty() { "-".to_string() } else { toks.join(",") }
+        }));
+        r.unwrap_or_else(|e| format!("panic:{}", hex(panic_msg(&e).as_bytes())))
+      }
+      other => format!("bad-op {other}"),
+    }
+  });
+}
+
+#[cfg(samlang_verif_c10_hook)]
+fn affected(st: &mut ServerState, names: &[&str]) -> String {
+  let dirty: Vec<ModuleReference> = names.iter().map(|n| mod_of(&mut st.heap, n)).collect();
+  let mut out: Vec<String> = samlang_services::verif_hooks::affected_set(st, dirty)
+    .iter()
+    .map(|m| name_of(&st.heap, m))
+    .collect();
+  out.sort();
+  if out.is_empty() { "-".to_string() } else { out.join(",") }
+}
+
+#[cfg(not(samlang_verif_c10_hook))]
+fn affected(_st: &mut ServerState, _names: &[&str]) -> String {
+  "no-hook".to_string()
 }
